@@ -193,7 +193,7 @@ def h_stop_daemon(reaction: int, r: int, has_bo: bool, bo: int, has_to: bool, to
 STEPS = ['label_off', 'label_on', 'edit', 'mark_deleted', 'gone_unmarked', 'pause_on', 'pause_off', 'noop_event']
 
 
-def run_history(kind, steps, gaps, timer_kw=None, horizon=50, ties=()):
+def run_history(kind, steps, gaps, timer_kw=None, horizon=50, ties=(), exit_delay=0, stubborn=False):
     """kind: 'daemon' | 'timer'. Returns (log, errors)."""
     obj = base_body(labels={'run': 'yes'})
     w = World(obj, tmode='symbolic')
@@ -204,7 +204,22 @@ def run_history(kind, steps, gaps, timer_kw=None, horizon=50, ties=()):
     w.settings.background.instant_exit_timeout = None
     w.settings.background.instant_exit_zero_time_cycles = 5
 
-    if kind == 'daemon':
+    if kind == 'daemon' and stubborn:
+        @kopf.daemon(PLURAL, id='d', registry=w.registry, labels={'run': 'yes'}, cancellation_backoff=2, cancellation_timeout=5)
+        async def d(stopped, **kw):
+            # ignores the stop flag; exits only when cancelled
+            live[0] += 1
+            live[1] = max(live[1], live[0])
+            log.append(('enter', loop.time()))
+            try:
+                await asyncio.Event().wait()
+            except asyncio.CancelledError:
+                log.append(('cancelled', loop.time()))
+                raise
+            finally:
+                live[0] -= 1
+                log.append(('exit', loop.time(), str(stopped.reason)))
+    elif kind == 'daemon':
         @kopf.daemon(PLURAL, id='d', registry=w.registry, labels={'run': 'yes'}, cancellation_timeout=5)
         async def d(stopped, **kw):
             live[0] += 1
@@ -212,6 +227,9 @@ def run_history(kind, steps, gaps, timer_kw=None, horizon=50, ties=()):
             log.append(('enter', loop.time()))
             try:
                 await stopped.wait()
+                log.append(('flagged', loop.time()))
+                if exit_delay > 0:
+                    await asyncio.sleep(exit_delay)         # a daemon that needs some time to wind down
             finally:
                 live[0] -= 1
                 log.append(('exit', loop.time(), str(stopped.reason)))
@@ -284,6 +302,8 @@ def run_history(kind, steps, gaps, timer_kw=None, horizon=50, ties=()):
                 await deliver()
         await asyncio.sleep(horizon)
         log.append(('end', loop.time(), live[0], gone))
+        if killer.done():
+            log.append(('killer_died', loop.time(), repr(killer.exception() if not killer.cancelled() else 'cancelled')))
         killer.cancel()
         await asyncio.gather(killer, return_exceptions=True)
         log.append(('killed', loop.time(), live[0]))
@@ -292,10 +312,10 @@ def run_history(kind, steps, gaps, timer_kw=None, horizon=50, ties=()):
     return log, live, w
 
 
-def h_history(s0: int, s1: int, s2: int, g0: int, g1: int, g2: int) -> bool:
+def h_history(s0: int, s1: int, s2: int, g0: int, g1: int, g2: int, r: int) -> bool:
     """
     pre: 0 <= s0 <= 7 and 0 <= s1 <= 7 and 0 <= s2 <= 7
-    pre: 0 <= g0 and 0 <= g1 and 0 <= g2
+    pre: 0 <= g0 and 0 <= g1 and 0 <= g2 and 0 <= r <= 3
     post: _ == True
     """
     vkopf.begin_path()
@@ -309,12 +329,23 @@ def h_history(s0: int, s1: int, s2: int, g0: int, g1: int, g2: int) -> bool:
     steps = [s0, s1, s2][:n]
     if allowed is not None and any(s not in allowed for s in steps):
         return True
+    # known finding F12: a daemon that ignores the stop flag is never cancelled when its object disappears without a
+    # deletion mark (the memory is forgotten on DELETED and no further cycle escalates the termination)
+    f12 = bool(c.get('stubborn')) and 4 in steps
+    if f12 and not c.get('only_f12'):
+        return True
+    if c.get('only_f12') and not f12:
+        return True
     try:
-        log, live, w = run_history(c['kind'], steps, [g0, g1, g2][:n], timer_kw=c.get('timer_kw'))
+        if not c.get('slow_exit'):
+            r = 0
+        log, live, w = run_history(c['kind'], steps, [g0, g1, g2][:n], timer_kw=c.get('timer_kw'), exit_delay=r, stubborn=c.get('stubborn', False))
     except (Deadlock, Diverged, Livelock):
         vkopf.witness('stalled')
         return vkopf.verdict(False)
     ok = live[1] <= 1                       # at most one instance at any time
+    if any(e[0] == 'killer_died' for e in log):
+        ok = False                          # stopping never crashes the operator (the daemon killer is a root task)
     end = [e for e in log if e[0] == 'end'][0]
     killed = [e for e in log if e[0] == 'killed'][0]
     names = [STEPS[s] for s in steps]
@@ -323,11 +354,20 @@ def h_history(s0: int, s1: int, s2: int, g0: int, g1: int, g2: int) -> bool:
     if gone and end[2] != 0:
         ok = False
     if 'mark_deleted' in names and end[2] != 0:
-        ok = False
+        ok = False              # (the horizon of 50 s exceeds every wind-down delay)
     # after the operator exits nothing keeps running
     if killed[2] != 0:
         ok = False
-    if c['kind'] == 'daemon':
+    if c['kind'] == 'daemon' and c.get('stubborn'):
+        # a daemon that ignores the flag is cancelled after the backoff, whoever asked it to stop first
+        enters = [e for e in log if e[0] == 'enter']
+        exits = [e for e in log if e[0] == 'exit']
+        last_step = names[-1]
+        if last_step in ('pause_on', 'label_off', 'mark_deleted') or ('pause_on' in names and 'pause_off' not in names):
+            vkopf.witness('stubborn_stopped')
+            if end[2] != 0:
+                ok = False
+    elif c['kind'] == 'daemon':
         enters = [e for e in log if e[0] == 'enter']
         exits = [e for e in log if e[0] == 'exit']
         stops = [e[1] for e in log if e[0] == 'step' and e[2] in ('label_off', 'mark_deleted', 'gone_unmarked', 'pause_on')]
@@ -346,7 +386,7 @@ def h_history(s0: int, s1: int, s2: int, g0: int, g1: int, g2: int) -> bool:
             elif e[0] == 'step' and e[2] in ('label_off', 'mark_deleted', 'gone_unmarked', 'pause_on') and running:
                 seen = False
                 for f in log[i + 1:]:
-                    if f[0] == 'exit' and f[1] == e[1]:
+                    if f[0] in ('flagged', 'exit') and f[1] == e[1]:
                         seen = True
                         break
                     if f[0] in ('step', 'end') and f[1] == e[1]:
@@ -375,6 +415,17 @@ def obligations():
         obs.append(Ob('h_history', {'kind': 'daemon', 'n': 2, 'pin': {'s0': a, 's1': b}}, tiers=('quick',), timeout=900, path_timeout=200))
     obs.append(Ob('h_history', {'kind': 'daemon', 'n': 2, 'pin': {'s0': 0, 's1': 1}}, tiers=('quick', 'thorough'), timeout=600, path_timeout=200,
                   twins=['respawned'], main=False))
+    for (a, b) in ((5, 7), (0, 7), (3, 5)):
+        obs.append(Ob('h_history', {'kind': 'daemon', 'n': 2, 'stubborn': True, 'pin': {'s0': a, 's1': b}}, tiers=('quick',), timeout=900,
+                      path_timeout=200))
+    obs += split(Ob('h_history', {'kind': 'daemon', 'n': 2, 'stubborn': True}, tiers=('thorough',), timeout=1800, path_timeout=200, twins=['stubborn_stopped']),
+                 s0=safe, s1=safe)
+    obs.append(Ob('h_history', {'kind': 'daemon', 'n': 1, 'stubborn': True, 'only_f12': True, 'pin': {'s0': 4}}, expect='counterexample',
+                  finding='F12', timeout=600, path_timeout=200))
+    for (a, b) in ((5, 7), (5, 6), (3, 7)):
+        obs.append(Ob('h_history', {'kind': 'daemon', 'n': 2, 'slow_exit': True, 'pin': {'s0': a, 's1': b}}, tiers=('quick',), timeout=900,
+                      path_timeout=200))
+    obs += split(Ob('h_history', {'kind': 'daemon', 'n': 2, 'slow_exit': True}, tiers=('thorough',), timeout=1800, path_timeout=200), s0=safe, s1=safe)
     for kw in ({'idle': 4}, {'interval': 3}):
         for a in (3, 4, 5, 7):
             obs.append(Ob('h_history', {'kind': 'timer', 'n': 1, 'timer_kw': kw, 'gap_max': 8, 'pin': {'s0': a}}, tiers=('quick',),
